@@ -173,13 +173,21 @@ Definition dir_valid (ex : list chunkspec) (d : dir) : Prop :=
        m_chunks m = infos ex /\
        forall i n v, In (i, n, v) ex -> n <> 0 -> dlookup d (FChunk i) = Some (CChunk v true)).
 
+(* a directory whose closing metadata records `exception`: it can be renamed to `<key>` and will never be visible *)
+Definition dir_broken (d : dir) : Prop :=
+  exists m, dlookup d FMeta = Some (CMeta (Some m)) /\ m_ended m = true /\ m_exc m = true.
+
+Lemma dir_broken_valid ex d : dir_broken d -> dir_valid ex d.
+Proof. intros (m & H1 & H2 & H3). exists m. split; [exact H1|]. split; [exact H2|]. rewrite H3. discriminate. Qed.
+
 Definition Inv (c : pcfg) (s : pst) (f : fs) : Prop :=
   fs_ok (p_expected c) f /\
   match p_ph s with
   | PhInit => p_tmp s = [] /\ p_fin s = []
   | PhOpen => exists d, f_temp f = Some d /\ files_ok d FTmp (p_tmp s) /\ files_ok d FChunk (p_fin s)
   | PhClosing => exists d, f_temp f = Some d /\ dir_valid (p_expected c) d
-  | PhDone => True
+  | PhClosingX => exists d, f_temp f = Some d /\ dir_broken d
+  | PhDone | PhDoneX => True
   end.
 
 Lemma load_chunks_infos ex d :
@@ -221,6 +229,43 @@ Proof.
     destruct ex as [|c0 ex0]; [contradiction | reflexivity].
 Qed.
 
+(* a chunk write / chunk rename touches neither `<key>` nor the metadata file of `<key>_temp` *)
+Lemma chunk_op_frame f o oc f' :
+  (exists i v, o = OWriteTmp i v) \/ (exists i, o = ORenameChunk i) ->
+  apply_ev f (o, oc) = Some f' ->
+  f_final f' = f_final f /\
+  (forall d, f_temp f = Some d -> exists d', f_temp f' = Some d' /\ dlookup d' FMeta = dlookup d FMeta).
+Proof.
+  intros Ho Ha.
+  assert (Hd : forall g, apply_done f o = Some g ->
+             f_final g = f_final f /\
+             (forall d, f_temp f = Some d -> exists d', f_temp g = Some d' /\ dlookup d' FMeta = dlookup d FMeta)).
+  { intros g Hg. destruct Ho as [(i & v & ->)|(i & ->)]; cbn in Hg; unfold on_temp in Hg;
+      destruct (f_temp f) as [d0|]; try discriminate.
+    - inversion Hg; subst. split; [reflexivity|]. intros d E; inversion E; subst. eexists; split; [reflexivity|].
+      apply dlookup_dinsert_other; discriminate.
+    - destruct (dlookup d0 (FTmp i)) as [c0|]; [|discriminate]. inversion Hg; subst. split; [reflexivity|].
+      intros d E; inversion E; subst. eexists; split; [reflexivity|].
+      rewrite dlookup_dinsert_other by discriminate. apply dlookup_ddelete_other; discriminate. }
+  destruct oc as [|[]]; cbn in Ha; auto.
+  - inversion Ha; subst. split; [reflexivity|]. intros d E; eauto.
+  - destruct Ho as [(i & v & ->)|(i & ->)]; [|discriminate]. unfold on_temp in Ha.
+    destruct (f_temp f) as [d0|]; [|discriminate]. inversion Ha; subst. split; [reflexivity|].
+    intros d E; inversion E; subst. eexists; split; [reflexivity|]. apply dlookup_dinsert_other; discriminate.
+Qed.
+
+Lemma late_chunk_op_inv c s f o oc f' fl tmp fin :
+  (exists i v, o = OWriteTmp i v) \/ (exists i, o = ORenameChunk i) ->
+  Inv c s f -> late_ok (p_ph s) = true -> apply_ev f (o, oc) = Some f' ->
+  Inv c (mkPst (p_ph s) fl tmp fin) f'.
+Proof.
+  intros Ho [Hok Hph] Hl Ha. destruct (chunk_op_frame f o oc f' Ho Ha) as [Hfin Htemp].
+  split; [eapply fs_ok_final; eauto|]. cbn.
+  destruct (p_ph s); try discriminate; [|exact I].
+  destruct Hph as (d & Hd & m & H1 & H2 & H3). destruct (Htemp d Hd) as (d' & Hd' & Hm).
+  exists d'. split; [exact Hd'|]. exists m. rewrite Hm. auto.
+Qed.
+
 (* one step of the automaton on one (successful, failed or interrupted) operation preserves the invariant *)
 Lemma pstep_inv c s ev s' f f' :
   p_expected c <> [] ->
@@ -248,7 +293,10 @@ Proof.
       try (destruct (f_final f); inversion Ha; subst; apply fs_ok_no_final; reflexivity).
     inversion Ha; subst; exact Hok.
   - (* OWriteTmp *)
-    destruct (phase_eqb (p_ph s) PhOpen) eqn:Ep; [|discriminate]. inversion Hs; subst s'; clear Hs.
+    destruct (phase_eqb (p_ph s) PhOpen) eqn:Ep.
+    2:{ destruct (late_ok (p_ph s)) eqn:El; [|discriminate]. inversion Hs; subst s'; clear Hs.
+        apply (late_chunk_op_inv c s f _ oc f' _ _ _ (or_introl (ex_intro _ i (ex_intro _ v eq_refl))) (conj Hok Hph) El Ha). }
+    inversion Hs; subst s'; clear Hs.
     destruct (p_ph s); try discriminate. destruct Hph as (d & Hd & Ht & Hfi).
     assert (Hcase : (f' = f /\ oc = Failed ENone) \/
                     (exists b, f' = mkFs (Some (dinsert d (FTmp i) (CChunk v b))) (f_final f) /\
@@ -269,7 +317,10 @@ Proof.
              rewrite lookup_i_rm_other in Hl by auto; exact Hl.
       * apply files_ok_insert_other; [discriminate | exact Hfi].
   - (* ORenameChunk *)
-    destruct (phase_eqb (p_ph s) PhOpen) eqn:Ep; [|discriminate]. inversion Hs; subst s'; clear Hs.
+    destruct (phase_eqb (p_ph s) PhOpen) eqn:Ep.
+    2:{ destruct (late_ok (p_ph s)) eqn:El; [|discriminate]. inversion Hs; subst s'; clear Hs.
+        apply (late_chunk_op_inv c s f _ oc f' _ _ _ (or_intror (ex_intro _ i eq_refl)) (conj Hok Hph) El Ha). }
+    inversion Hs; subst s'; clear Hs.
     destruct (p_ph s); try discriminate. destruct Hph as (d & Hd & Ht & Hfi).
     destruct (did oc) eqn:Ed.
     + assert (Hc : exists c0, dlookup d (FTmp i) = Some c0 /\
@@ -312,8 +363,10 @@ Proof.
       * split; [eapply fs_ok_final; eauto|]. cbn.
         destruct Hx as [[-> [->| ->]]|[-> ->]]; try apply Hopen.
         (* the closing flush succeeded *)
+        destruct (m_exc m) eqn:Hexc.
+        { eexists; split; [reflexivity|]. exists m. split; [apply dlookup_dinsert_same | auto]. }
         eexists; split; [reflexivity|]. exists m. split; [apply dlookup_dinsert_same|]. split; [exact Een|].
-        intros Hexc. unfold closing_ok in Ec. rewrite Hexc in Ec. cbn in Ec.
+        intros _. unfold closing_ok in Ec. rewrite Hexc in Ec. cbn in Ec.
         apply Bool.andb_true_iff in Ec as [_ Ec]. apply Bool.andb_true_iff in Ec as [Ec1 Ec2].
         split; [apply list_eqb_pair_eq; exact Ec1|].
         intros i n v Hin Hn. rewrite dlookup_dinsert_other by discriminate.
@@ -323,16 +376,23 @@ Proof.
       * split; [exact Hok|]. cbn. eauto.
       * split; [eapply fs_ok_final; eauto|]. cbn. apply Hopen.
   - (* ORenameDir *)
-    destruct (phase_eqb (p_ph s) PhClosing) eqn:Ep; [|discriminate]. inversion Hs; subst s'; clear Hs.
-    destruct (p_ph s); try discriminate. destruct Hph as (d & Hd & Hv).
+    assert (Hcl : exists d, f_temp f = Some d /\ dir_valid (p_expected c) d /\
+                    s' = mkPst (if did oc then (if phase_eqb (p_ph s) PhClosing then PhDone else PhDoneX) else p_ph s)
+                           (p_failed s || is_fail oc) (p_tmp s) (p_fin s) /\
+                    (p_ph s = PhClosing \/ p_ph s = PhClosingX)).
+    { destruct (p_ph s) eqn:Eph; cbn in Hs; try discriminate.
+      - destruct Hph as (d & Hd & Hv). exists d. inversion Hs; subst. destruct (did oc); auto.
+      - destruct Hph as (d & Hd & Hv). exists d. inversion Hs; subst.
+        split; [exact Hd|]. split; [apply dir_broken_valid; exact Hv|]. destruct (did oc); auto. }
+    destruct Hcl as (d & Hd & Hv & -> & Hcases). clear Hs.
     destruct (did oc) eqn:Ed.
     + assert (f' = mkFs None (Some d)) as ->.
       { destruct oc as [|[]]; cbn in Ed; try discriminate; cbn in Ha; rewrite Hd in Ha;
           destruct (f_final f); inversion Ha; reflexivity. }
-      split; [|exact I]. apply dir_valid_visible; assumption.
+      split; [apply dir_valid_visible; assumption|]. cbn. destruct (phase_eqb (p_ph s) PhClosing); exact I.
     + assert (f' = f) as ->.
       { destruct oc as [|[]]; cbn in Ed; try discriminate; cbn in Ha; inversion Ha; reflexivity. }
-      split; [exact Hok|]. cbn. eauto.
+      split; [exact Hok|]. cbn. exact Hph.
   - (* OUpExc *)
     inversion Hs; subst s'; clear Hs.
     assert (f' = f) as ->. { destruct oc as [|[]]; cbn in Ha; inversion Ha; reflexivity. }
@@ -482,4 +542,23 @@ Example ex_swallowed_rejected :
   accepts (mkPcfg [(0, 2, 100)] true)
     [(OMkTemp, Done); (OWriteMeta (mkMeta [] false false), Done); (OWriteMeta (mkMeta [(0, 2)] false false), Done);
      (OWriteTmp 0 100, Failed ENone); (OWriteMeta (mkMeta [(0, 2)] true false), Done); (ORenameDir, Done)] = false.
+Proof. vm_compute. reflexivity. Qed.
+
+(* a pooled chunk write that was still in flight when the saver closed *with* `exception` may land afterwards
+   (before or after the directory rename): accepted, the key stays invisible ... *)
+Example ex_late_write_after_failed_close :
+  let tr := [(OMkTemp, Done); (OWriteMeta (mkMeta [] false false), Done);
+             (OWriteMeta (mkMeta [(0, 2)] false false), Failed ENone);
+             (OWriteMeta (mkMeta [(0, 2)] true true), Done); (ORenameDir, Done);
+             (OWriteTmp 0 100, Failed ENone)] in
+  accepts (mkPcfg [(0, 2, 100)] true) tr = true /\
+  match run_evs fs_empty tr with Some f => visible f = false | None => False end.
+Proof. vm_compute. split; reflexivity. Qed.
+
+(* ... but after a closing flush *without* `exception` nothing except the rename is accepted *)
+Example ex_late_write_after_successful_close_rejected :
+  accepts (mkPcfg [(0, 2, 100)] true)
+    [(OMkTemp, Done); (OWriteMeta (mkMeta [] false false), Done); (OWriteTmp 0 100, Done); (ORenameChunk 0, Done);
+     (OWriteMeta (mkMeta [(0, 2)] false false), Done); (OWriteMeta (mkMeta [(0, 2)] true false), Done);
+     (ORenameDir, Done); (OWriteTmp 0 100, Done)] = false.
 Proof. vm_compute. reflexivity. Qed.
